@@ -232,15 +232,31 @@ func (c17Transport) RoundTrip(req *http.Request) (*http.Response, error) {
 
 // ---------------------------------------------------------------- cache
 
+// c17Cache: by default every Get misses (so that an execution's behaviour does not depend on earlier ones) and
+// the TTLs handed to Set are recorded; with [keep] it is a real (mutex-protected) cache, shared by the
+// goroutines of a race case so that the cache-hit paths of the mechanisms run concurrently too.
 type c17Cache struct {
 	mu   sync.Mutex
 	ttls []string
+	keep map[string][]byte
 }
 
 func (c *c17Cache) Start(context.Context) error { return nil }
 func (c *c17Cache) Stop(context.Context) error  { return nil }
 
-func (c *c17Cache) Get(context.Context, string) ([]byte, error) { return nil, errors.New("miss") }
+func (c *c17Cache) Get(_ context.Context, key string) ([]byte, error) {
+	if c.keep != nil {
+		c.mu.Lock()
+		v, ok := c.keep[key]
+		c.mu.Unlock()
+
+		if ok {
+			return v, nil
+		}
+	}
+
+	return nil, errors.New("miss")
+}
 
 // c17TTL: a configured TTL is a whole number of seconds, at most a few hours, and is recorded exactly; a
 // TTL derived from the clock (expiry minus now, with the far-future expiries the APIs here hand out, or
@@ -253,9 +269,13 @@ func c17TTL(ttl time.Duration) string {
 	return fmt.Sprintf("~2^%d", int(math.Log2(ttl.Seconds())))
 }
 
-func (c *c17Cache) Set(_ context.Context, _ string, _ []byte, ttl time.Duration) error {
+func (c *c17Cache) Set(_ context.Context, key string, val []byte, ttl time.Duration) error {
 	c.mu.Lock()
-	c.ttls = append(c.ttls, c17TTL(ttl))
+	if c.keep != nil {
+		c.keep[key] = val
+	} else {
+		c.ttls = append(c.ttls, c17TTL(ttl))
+	}
 	c.mu.Unlock()
 
 	return nil
@@ -307,7 +327,7 @@ func (c *c17Ctx) Outputs() map[string]any     { return c.outputs }
 // c17Request: the request variants a case can use (fixed per case).
 //
 //	0 JWT with kid in Authorization   1 JWT without kid   2 opaque token   3 basic auth   4 no credentials
-func c17NewCtx(variant int) (*c17Ctx, *c17ReqLog, *c17Cache) {
+func c17NewCtx(variant int, shared *c17Cache) (*c17Ctx, *c17ReqLog, *c17Cache) {
 	h := map[string]string{"X-Fwd": "fwd-value", "X-Token": "opaque-1", "Accept": "text/html", "X-Tenant": "t9"}
 	ck := map[string]string{"session": "s-123", "pref": "dark"}
 	q := ""
@@ -328,6 +348,9 @@ func c17NewCtx(variant int) (*c17Ctx, *c17ReqLog, *c17Cache) {
 		Captures: map[string]string{"id": "42"}}
 
 	log, cch := &c17ReqLog{}, &c17Cache{}
+	if shared != nil {
+		cch = shared
+	}
 	app := context.WithValue(context.Background(), c17LogKey{}, log)
 	app = cache.WithContext(app, cch)
 
@@ -432,8 +455,10 @@ func c17NormHeader(h string) string {
 }
 
 // c17Exec executes mechanism m (of the given kind) once and returns the canonical behaviour string.
-func c17Exec(kind string, m any, variant int) (res string) {
-	ctx, log, cch := c17NewCtx(variant)
+func c17Exec(kind string, m any, variant int) string { return c17ExecWith(kind, m, variant, nil) }
+
+func c17ExecWith(kind string, m any, variant int, shared *c17Cache) (res string) {
+	ctx, log, cch := c17NewCtx(variant, shared)
 
 	var (
 		sub *subject.Subject
